@@ -423,8 +423,24 @@ func (b *Broker) RemovePipeline(t EventType, id PipelineID) error {
 		return fmt.Errorf("no graph for EventType %s", t)
 	}
 
+	b.releasePipelineNodes(g, id)
 	g.roots.Delete(id)
 	return nil
+}
+
+// releasePipelineNodes decrements the reference count of every node referenced
+// by the specified pipeline (if it is registered), without closing or removing
+// any node. This function assumes that the caller holds a lock.
+func (b *Broker) releasePipelineNodes(g *graph, id PipelineID) {
+	nodes, err := g.roots.Nodes(id)
+	if err != nil {
+		return
+	}
+	for _, nodeID := range nodes {
+		if nodeUsage, ok := b.nodes[nodeID]; ok && nodeUsage.referenceCount > 0 {
+			nodeUsage.referenceCount--
+		}
+	}
 }
 
 // RemovePipelineAndNodes will attempt to remove all nodes referenced by the pipeline.
